@@ -27,6 +27,7 @@
                   <<"Break">> <<"Continue">> <<"Return", e>> <<"ReturnNone">> <<"Pass">>
                   <<"Def", x, fname>> <<"MustReject", what>>
      targets      <<"TName", x>> <<"TTuple", <<targets>>>> <<"TSub", base-expr, idx>> <<"TAttr", x, field>>
+                  <<"TStar", <<targets before>>, star target, <<targets after>>>>
    Values are tagged:  <<"int", n>> <<"bool", 0|1>> <<"float", q>> (q quarter units)
      <<"tuple", <<v..>>>> <<"struct", name, <<fieldnames>>, <<v..>>>> <<"ref", a>> (array in the store)
      <<"fn", fname>> <<"none">> <<"str", s>>
@@ -296,13 +297,27 @@ Apply ==
          [] f[1] = "exprstmt" -> Go(<<"U", <<"next">>>>, Pop)
          [] f[1] = "assign" ->
                 LET t == f[2] IN
-                IF t[1] = "TTuple" /\ v[1] = "ref"         \* unpacking an array: its elements in index order
+                IF t[1] \in {"TTuple", "TStar"} /\ v[1] = "ref"   \* unpacking an array: its elements in index order
                 THEN Go(<<"V", <<"tuple", store[v[2]]>>>>, k)
                 ELSE IF SimpleTarget(t)
                 THEN (IF Shape(t, v)
                       THEN /\ env' = AssignEnv(env, t, v) /\ c' = <<"U", <<"next">>>> /\ k' = Pop
                            /\ UNCHANGED <<r, store, out, st, last>>
                       ELSE Stuck(<<"unpack shape", t>>))
+                ELSE IF t[1] = "TStar"                       \* a, *r, b = v : r collects the middle as a new list
+                THEN (IF v[1] = "tuple" /\ Len(v[2]) >= Len(t[2]) + Len(t[4])
+                         /\ SimpleTarget(<<"TTuple", t[2]>>) /\ SimpleTarget(<<"TTuple", t[4]>>) /\ t[3][1] = "TName"
+                         /\ Shape(<<"TTuple", t[2]>>, <<"tuple", SubSeq(v[2], 1, Len(t[2]))>>)
+                         /\ Shape(<<"TTuple", t[4]>>, <<"tuple", SubSeq(v[2], Len(v[2]) - Len(t[4]) + 1, Len(v[2]))>>)
+                      THEN LET nb == Len(t[2])
+                               na == Len(t[4])
+                               n  == Len(v[2])
+                               e1 == AssignEnv(env, <<"TTuple", t[2]>>, <<"tuple", SubSeq(v[2], 1, nb)>>)
+                               e2 == AssignEnv(e1, <<"TTuple", t[4]>>, <<"tuple", SubSeq(v[2], n - na + 1, n)>>) IN
+                           /\ store' = Append(store, SubSeq(v[2], nb + 1, n - na))
+                           /\ env' = Bind(e2, t[3][2], <<"ref", Len(store) + 1>>)
+                           /\ c' = <<"U", <<"next">>>> /\ k' = Pop /\ UNCHANGED <<r, out, st, last>>
+                      ELSE Stuck(<<"starred unpack shape", t>>))
                 ELSE IF t[1] = "TSub" THEN Go(<<"E", t[2]>>, Append(Pop, <<"asub1", t[3], v>>))
                 ELSE IF t[1] = "TAttr"
                 THEN (IF t[2] \in DOMAIN env /\ env[t[2]][1] = "struct" /\ \E i \in 1..Len(env[t[2]][3]) : env[t[2]][3][i] = t[3]
